@@ -178,6 +178,19 @@ func main() {
 						check(run, c, enc, e, p, "cfg", local)
 					}
 				}
+				// messages that end in (or are) the configured separator: the separator
+				// that follows the message column must still be written
+				sep := c.Sep
+				if sep == "" {
+					sep = "\t"
+				}
+				for _, m := range []string{"tail" + sep, sep, sep + "x" + sep + sep} {
+					e := ents[len(ents)-1]
+					e.Message = m
+					for _, p := range placements {
+						check(run, c, enc, e, p, "cfg-msg-sep", local)
+					}
+				}
 			}
 		}
 		merge(local)
